@@ -129,14 +129,10 @@ theorem ms_term (f : Nat) (ih : Mono f) : ∀ ts, Le (parseTerm (f + 1) ts) (par
     | op o => cases o <;> simp only [parseTerm] <;> le_tac ih
     | dot =>
       simp only [parseTerm]
-      apply onTok_le
-      · le_tac ih
-      · generalize strHead ts = h
-        cases h <;> simp only <;> le_tac ih
+      le_tac ih
     | fmt s =>
       simp only [parseTerm]
-      generalize strHead ts = h
-      cases h <;> simp only <;> le_tac ih
+      le_tac ih
     | _ => simp only [parseTerm] <;> le_tac ih
 
 theorem ms_postfix (f : Nat) (ih : Mono f) : ∀ t ts, Le (parsePostfix (f + 1) t ts) (parsePostfix (f + 1 + 1) t ts) := by
@@ -147,8 +143,7 @@ theorem ms_postfix (f : Nat) (ih : Mono f) : ∀ t ts, Le (parsePostfix (f + 1) 
     cases tk with
     | dot =>
       simp only [parsePostfix]
-      generalize strHead r = h
-      cases h <;> simp only <;> le_tac ih
+      le_tac ih
     | _ => simp only [parsePostfix] <;> le_tac ih
 
 theorem ms_bracket (f : Nat) (ih : Mono f) : ∀ ts, Le (parseBracket (f + 1) ts) (parseBracket (f + 1 + 1) ts) := by
@@ -178,8 +173,7 @@ theorem ms_entry (f : Nat) (ih : Mono f) : ∀ ts, Le (parseEntry (f + 1) ts) (p
     | lparen => simp only [parseEntry]; le_tac ih
     | _ =>
       simp only [parseEntry]
-      generalize strHead _ = h
-      cases h <;> simp only <;> le_tac ih
+      le_tac ih
 
 theorem ms_pattern (f : Nat) (ih : Mono f) : ∀ ts, Le (parsePattern (f + 1) ts) (parsePattern (f + 1 + 1) ts) := by
   intro ts
@@ -197,8 +191,7 @@ theorem ms_patEntry (f : Nat) (ih : Mono f) : ∀ ts, Le (parsePatEntry (f + 1) 
     | var s => simp only [parsePatEntry]; le_tac ih
     | _ =>
       simp only [parsePatEntry]
-      generalize strHead _ = h
-      cases h <;> simp only <;> le_tac ih
+      le_tac ih
 
 theorem ms_pats (f : Nat) (ih : Mono f) : ∀ ts, Le (parsePats (f + 1) ts) (parsePats (f + 1 + 1) ts) := by
   intro ts; simp only [parsePats]; le_tac ih
